@@ -1,0 +1,8 @@
+//go:build !verif
+
+// Package verifhook provides named observation points for external runtime monitors.
+// Without the "verif" build tag Event is an empty function that the compiler inlines away.
+package verifhook
+
+// Event is a no-op unless the module is built with -tags verif.
+func Event(name string, srv any, cid [2]byte, x uint32) {}
